@@ -34,6 +34,9 @@ pub fn bases(thorough: bool) -> Vec<Base> {
     add("fixed4-hl8-none-dup", Cfg::fixed(4), 8, Comp::None, b"AAAABBBBAAAACCCCDD".to_vec());
     add("fixed16-hl64-brotli", Cfg::fixed(16), 64, Comp::Brotli(6), [vec![b'x'; 16], vec![b'y'; 16], (0..16u8).collect(), vec![b'x'; 16], vec![b'z'; 5]].concat());
     add("rollsum-hl8-none", Cfg::new(Algo::Roll, 4, 4, 12, 2), 8, Comp::None, b"abcdefghabcdefghhgfedcbaabcdefgh0123".to_vec());
+    // a compressed tail chunk that is shorter than the others: its payload laid over another chunk's
+    // decodes fine, to fewer bytes than that chunk's descriptor promises
+    add("fixed64-hl64-brotli-tail", Cfg::fixed(64), 64, Comp::Brotli(5), [vec![b'x'; 64], vec![b'y'; 64], vec![b'z'; 40]].concat());
     if thorough {
         add("buzhash-hl64-brotli", Cfg::new(Algo::Buz, 4, 5, 12, 2), 64, Comp::Brotli(4), b"abcdefghabcdefghhgfedcbaabcdefgh01234567".to_vec());
         add("fixed16-hl16-zstd", Cfg::fixed(16), 16, Comp::Zstd(3), [vec![b'q'; 16], vec![b'r'; 16], vec![b'q'; 16]].concat());
@@ -48,6 +51,8 @@ pub enum Mutation {
     Truncate(usize),
     Overwrite(usize, Vec<u8>),
     SwapPayload(usize, usize),
+    /// payload of chunk j written over the beginning of the payload of chunk i (the rest of i's stays)
+    OverlayPayload(usize, usize),
     Trailing(usize),
 }
 
@@ -100,6 +105,15 @@ fn apply(arch: &Arch, m: &Mutation) -> Option<Vec<u8>> {
                 b = nb;
             }
         }
+        Mutation::OverlayPayload(i, j) => {
+            let (oi, si, _) = arch.descs[*i];
+            let (oj, sj, _) = arch.descs[*j];
+            if sj > si || arch.bytes[oi as usize..oi as usize + sj] == arch.bytes[oj as usize..oj as usize + sj] {
+                return None;
+            }
+            let pj = arch.bytes[oj as usize..oj as usize + sj].to_vec();
+            b[oi as usize..oi as usize + sj].copy_from_slice(&pj);
+        }
         Mutation::Trailing(n) => b.extend(std::iter::repeat(0xA5).take(*n)),
     }
     Some(b)
@@ -127,6 +141,13 @@ fn mutations(arch: &Arch, thorough: bool) -> Vec<Mutation> {
     for i in 0..arch.descs.len() {
         for j in i + 1..arch.descs.len() {
             v.push(Mutation::SwapPayload(i, j));
+        }
+    }
+    for i in 0..arch.descs.len() {
+        for j in 0..arch.descs.len() {
+            if i != j {
+                v.push(Mutation::OverlayPayload(i, j));
+            }
         }
     }
     v.push(Mutation::Trailing(1));
@@ -261,7 +282,14 @@ fn cli_leg(rep: &mut Report, bases: &[Base]) {
     let mut jobs: Vec<(usize, usize, Mutation)> = vec![];
     for (bi, b) in bases.iter().enumerate() {
         for (mi, m) in mutations(&b.arch, thorough).into_iter().enumerate() {
-            if mi % step == 0 {
+            // structural corruptions (a payload replaced by another chunk's, trailing bytes, truncations) are few
+            // and decode differently from bit noise: all of them go through the binary, in the plain variant
+            // (mi / step multiple of 3) as well as in the slice's rotation
+            let structural = matches!(m, Mutation::SwapPayload(..) | Mutation::OverlayPayload(..) | Mutation::Trailing(..));
+            if structural {
+                jobs.push((bi, 0, m.clone()));
+                jobs.push((bi, 2, m));
+            } else if mi % step == 0 {
                 jobs.push((bi, mi / step, m));
             }
         }
